@@ -61,7 +61,14 @@ def parentsOfJson (j : Json) : List (Nat × List Nat) :=
       | _ => none
     | _ => none)
 
+def kindOfString : String → FailKind
+  | "keyboardInterrupt" => .keyboardInterrupt
+  | "systemExit" => .systemExit
+  | "baseException" => .baseException
+  | _ => .exception
+
 structure Case where
+  kind : FailKind
   c : Cfg
   pre : List (Stmt Act)
   plan : List (Mig Act)
@@ -75,11 +82,11 @@ def caseOfJson (j : Json) : Option Case := do
   let fail := match getNat (getObj j "fail") "k", getNat (getObj j "fail") "pos" with
     | some k, some p => some (k, p)
     | _, _ => none
-  pure { c := c, pre := pre, plan := plan, fail := fail, db := dbOfJson (getObj j "db") }
+  pure { kind := kindOfString (getStrD (getObj j "fail") "kind" "exception"), c := c, pre := pre, plan := plan, fail := fail, db := dbOfJson (getObj j "db") }
 
 def progsOf (cs : Case) : List (List (Atom Act)) :=
   match cs.fail with
-  | some (k, p) => oracle cs.plan k p
+  | some (k, p) => oracle cs.kind cs.plan k p
   | none => cs.plan.map migAtoms
 
 def handle (op : String) (j : Json) : Option Json :=
